@@ -112,6 +112,9 @@ class Module:
         self.props = kw.get("props", {})        # property attribute -> handler(engine, obj, st, old)
         self.defaultdicts = kw.get("defaultdicts", {})  # tracked Map attribute -> smt text of the default value
         self.sortnames = kw.get("sortnames", {})
+        self.defs = kw.get("defs", {})          # name -> ([argsorts], ret) for functions defined in defs_text
+        self.defs_text = kw.get("defs_text", "")  # (define-fun ...) text emitted after declarations
+        self.hooks = kw.get("hooks", {})       # binop / cmp / subscript / hetero_list / dict / isinstance
         self.skip_calls = kw.get("skip_calls", ["self.log", "logger.", "log.", "warnings.warn", "print"])
 
 
